@@ -35,8 +35,28 @@ NOT_CLAIMED = {}
 SPECS["C13"] = {
     "pid": "C13",
     "harness": "c13",
-    "coq_targets": ["Properties/C13.vo", "Checks/C13check.vo"],
+    "coq_targets": ["Properties/C13.vo", "Checks/C13check.vo", "Checks/C13rcheck.vo"],
     "cases_header": HDR.format(mods="PerKey Checks.C13check"),
+    "parts": [{}, {
+        "name": "race",
+        "harness": "c13r",
+        "cases_header": HDR.format(mods="PerKey PerKeyRace Checks.C13rcheck"),
+        "quick": {"count": 600},
+        "thorough": {"count": 20000},
+        "sweeps": [[]],
+        "nontrivial": lambda c: any(t in c["tags"] for t in (
+            "close-inside-poll", "ops-inside-tracker-drop", "close-between-read-and-upgrade")),
+        "rule": "part race: the real MaxChannelsPerKey driven through the yield points of hook H5 (before upgrade(), "
+                "before dropped_keys.poll_recv, before the entry check, inside Tracker::drop before it sends): at "
+                "each of them the callback does what another thread could do there (drop tracked channels - release "
+                "and notification split for top-level drops -, let channels arrive, end the listener; a whole "
+                "poll_next, with its own yield points live, inside Tracker::drop); the run is logged as the flat list "
+                "of PerKeyRace.rop it amounts to with the decision-view observations and the program counter after "
+                "every listener action, and compared inside Coq with PerKeyRace.rrun; n in 1..3, <=2 keys, 4..30 "
+                "tokens; non-trivial = something happened between two atomic actions of a poll or inside "
+                "Tracker::drop; thorough adds a bounded-exhaustive family (every choice of one of six op lists at each "
+                "of the three yield points of one poll, 3 prefixes, 4 follow-ups, n = 1, 2)",
+    }],
     "case_term": lambda c: f"({c['cfg']}, {c['ops']}, {c['obs']})",
     "quick": {"count": 600},
     "thorough": {"count": 20000},
@@ -61,11 +81,13 @@ SPECS["C13"] = {
     "level_note": "Trusted: Coq kernel, vm_compute, the Rust harness and Python driver. Modelled not verified: Arc/Weak "
                   "reference counts and tokio's unbounded mpsc as sequential data. OS-thread races between strong_count(), "
                   "upgrade(), the release of a channel and its delayed drop notification are covered by the race model "
-                  "PerKeyRace.v (theorems C13_race_*), which has no harness. Correspondence is sampled, not proved.",
+                  "PerKeyRace.v (theorems C13_race_*), tied to the code by part race: the yield points of hook H5 sit exactly between its atomic "
+                  "actions and the callback plays the other threads deterministically (real OS-thread scheduling and the "
+                  "memory ordering of the count reads stay assumptions). Correspondence is sampled, not proved.",
     "design_ref": "DESIGN.md section 6 (C13)",
     "assumptions": ["one op (arrival, close, poll) is atomic; channels are closed by dropping them on the "
                     "thread that polls the listener (sequential machine, tied to the code)",
-                    "race model (PerKeyRace.v, proved, not tied to the code): strong_count() and upgrade() are each atomic, "
+                    "race model (PerKeyRace.v, proved; tied to the code at the yield points of hook H5 by part race): strong_count() and upgrade() are each atomic, "
                     "upgrade() succeeds iff the count is > 0 at that instant, strong_count() reads are sequentially "
                     "consistent (a stale read can only be higher: a conservative shed), Tracker::drop sends its key some "
                     "time after the count reached 0 (RRelease / RNotify), dropped_keys is linearizable, only the listener "
